@@ -152,12 +152,12 @@ void h_flush_step(void)
   }
   bool mode_same = impl.readModes.present == impl0.readModes.present && impl.readModes.wval == impl0.readModes.wval;
   __CPROVER_assert(st == 0 || st == 1 || st == 2, "ST status");
-  __CPROVER_assert((st == 0) == impl0.shuttingDown, "T1 the flush stops (returns false) exactly when teardown has begun");
+  __CPROVER_assert((!impl0.shuttingDown || st == 0) && (st != 0 || impl0.shuttingDown || w0.closed), "T1 the flush stops (returns false) when teardown has begun - and otherwise at most for a buffer whose session is already closed (C02 clause AC1, unit transport_onclose)");
   __CPROVER_assert(st != 0 || (SAME_BUF(wbuf, w0) && mode_same && G_cb_calls == 0), "T2 ... touching nothing");
   __CPROVER_assert(mode_same || st == 2, "M1 the read mode is changed only by the iteration that ends the loop");
   __CPROVER_assert(st != 2 || (n0 == 0 && SAME_BUF(wbuf, w0) && impl.readModes.present && impl.readModes.wval == ReadMode_Async && G_cb_calls == 0),
                    "M2 the loop ends only when the buffer is observed EMPTY under the lock; the mode becomes Async in that same critical section, nothing is in flight");
-  __CPROVER_assert(!(n0 == 0 && !impl0.shuttingDown) || st == 2, "M3 empty buffer ==> the mode is switched and the loop ends");
+  __CPROVER_assert(!(n0 == 0 && !impl0.shuttingDown && !w0.closed) || st == 2, "M3 empty buffer (of an open session) ==> the mode is switched and the loop ends");
   __CPROVER_assert(st != 1 || (n0 > 0 && wbuf.data.lo == w0.data.hi && wbuf.data.hi == w0.data.hi && !wbuf.hasData), "B1 otherwise ALL buffered bytes [lo, hi) are taken out; the buffer continues at hi (later arrivals are appended behind the flushed block)");
   __CPROVER_assert(st != 1 || G_cb_calls == (cb.set ? 1 : 0), "B2 the data callback is invoked exactly once (iff one is registered)");
   __CPROVER_assert(st != 1 || !cb.set || (G_cb_sid == sid && G_cb_pos == w0.data.lo && G_cb_n == n0), "B3 it receives exactly the flushed block [lo, hi) - before this function can take any later block");
@@ -205,6 +205,33 @@ void h_mode_step1(void)
   if (mode == ReadMode_Async && old == ReadMode_Disabled) { IORA_CANARY("h_mode_step1: Disabled -> Async"); }
   if (st == 1 && mode == ReadMode_Sync && !present0) { IORA_CANARY("h_mode_step1: buffer created"); }
   if (st == 2) { IORA_CANARY("h_mode_step1: deferred to flush"); }
+}
+
+/* ---- termination of the flush loop under a FINITE number of arrivals (assumption-labelled clause VT).
+ * Assumption A: at most `A` further arrival events (onData calls) occur for the session, and only onData makes the buffer grow (sync_ondata A0/A1; every other
+ * actor - receiveSync, onClose - leaves it or shrinks it). Variant mu = 2 * A + (buffer non-empty ? 1 : 0).  Each iteration that does NOT end the loop
+ * (status 1) empties the buffer (B1, by calling the real step); whatever happens before the next iteration consumes j <= A arrivals and can leave the buffer
+ * non-empty only if j >= 1: mu strictly decreases, so the loop runs at most 2A + 1 more iterations. Without A (a peer that never stops sending) the loop need not end. ---- */
+void h_flush_variant(void)
+{
+  Impl impl; SyncReceiveBuffer wbuf, obuf, fresh; iora_engine eng; Impl *self = &impl;
+  SessionId W = nondet_u64();
+  wire(&impl, &wbuf, &obuf, &fresh, &eng, W);
+  iora_fn cb; cb.set = nondet_bool();
+  __CPROVER_assume(impl.receiveBuffers.present && wbuf.flushing && SRB_INV(&wbuf, G_arrived, impl.shuttingDown, impl.config.maxSyncReceiveBuffer));
+  size_t A = nondet_size_t(); __CPROVER_assume(A <= ((size_t)1 << 40));
+  size_t mu0 = 2 * A + ((wbuf.data.hi > wbuf.data.lo) ? 1 : 0);
+  int st = setReadMode_flush_step(self, W, &wbuf, cb);
+  if (st != 1) { IORA_CANARY("h_flush_variant: loop ends"); return; }
+  /* environment until the next iteration takes the lock: j arrivals (assumption A), readers may take bytes */
+  size_t j = nondet_size_t(); __CPROVER_assume(j <= A);
+  size_t grow = nondet_size_t(), shrink = nondet_size_t();
+  __CPROVER_assume((j == 0) ? grow == 0 : grow <= impl.config.maxSyncReceiveBuffer);
+  __CPROVER_assume(shrink <= (wbuf.data.hi - wbuf.data.lo) + grow);
+  size_t size1 = (wbuf.data.hi - wbuf.data.lo) + grow - shrink;
+  size_t mu1 = 2 * (A - j) + (size1 > 0 ? 1 : 0);
+  __CPROVER_assert(mu1 < mu0, "VT [assumes A: finitely many arrivals, only onData appends] the variant 2*arrivals_remaining + (buffer non-empty) strictly decreases over every non-final iteration");
+  IORA_CANARY("h_flush_variant: next iteration");
 }
 
 #ifdef IORA_SEARCH
